@@ -32,7 +32,7 @@ INVARIANT InvByMin
 INVARIANT InvCountsAdd
 CHECK_DEADLOCK FALSE
 """
-TIERS = {"quick": dict(MaxRows=3, stride=5, nrand=120), "thorough": dict(MaxRows=4, stride=1, nrand=1500)}
+TIERS = {"quick": dict(MaxRows=3, stride=5, nrand=120), "thorough": dict(MaxRows=4, stride=4, nrand=1500)}
 G = gamma.affine(0.25, 0.125)          # abstract score v -> 0.125 + v/4
 NANLIM = 1_500_000_000
 METRICS = ["fnr", "fpr", "tpr", "tnr", "ppv", "npv", "fdr", "for_", "topr", "tonr", "accuracy", "error_rate",
@@ -144,7 +144,7 @@ def run(ctx: core.Ctx):
             continue
         cid = len(cases)
         cases.append(fr)
-        for v in range(3 if ctx.tier == "quick" else 8):
+        for v in range(3 if ctx.tier == "quick" else 4):
             evs.append(event(fr, ids, cid, (cid + 5 * v) % 48, ctx.seed))
         if len({(tuple(r[0]), tuple(r[1])) for r in fr}) > 1:
             ctx.nontrivial.add(json.dumps(fr))
